@@ -55,7 +55,7 @@ ASSUMPTIONS = ["CPython with the GIL: pre-emption happens between bytecode instr
                "covers every pre-emption point of the id generator with one forced pre-emption",
                "requests never reach the network: the opener of the shared implementation object is replaced"]
 TIERS = {
-    "quick": {"shards": 2, "cases": 12, "timeout": 300, "params": {"sweeps": 2}},
+    "quick": {"shards": 2, "cases": 12, "timeout": 300, "params": {"sweeps": 3}},
     "thorough": {"shards": 16, "cases": 60, "timeout": 3000, "params": {"sweeps": 3}},
 }
 FLOORS = {"quick": {"distinct_nontrivial": 20, "requests_observed": 5000, "yields_injected": 2000,
@@ -367,6 +367,7 @@ def stress_round(ctx, seed, interleavings, case_no):
     start = threading.Barrier(n_threads)
     own_expected = []
     errors = []
+    described = []
     http_logger = logging.getLogger(conn_http.__name__)
     old_level = http_logger.level
     if case_no % 4 == 3:
@@ -385,6 +386,9 @@ def stress_round(ctx, seed, interleavings, case_no):
             for k in range(n_req):
                 verb = (c.get, c.post, c.put, c.delete, c.patch)[wrng.randrange(5)]
                 kw = {}
+                if k % 10 == 7:
+                    # the connection is described (log line, console) between two requests
+                    described.append(len(str(c)) + len(repr(c)) + len("%s" % (c.conn_impl if hasattr(c, 'conn_impl') else c)))
                 shape = wrng.randrange(8)
                 if shape == 0:
                     kw['data'] = {'k': k}
@@ -419,10 +423,15 @@ def stress_round(ctx, seed, interleavings, case_no):
     for i in range(n_threads):
         if not uses_id_adapter(i):
             own_expected.extend((f"own-{i}-{k}" if k % 20 == 3 else "") for k in range(n_req) if k % 10 == 3)
-    threads = [threading.Thread(target=worker, args=(i,)) for i in range(n_threads)]
+    # (in every other round the thread that made the connections is one of the requesting threads)
+    creator_works = case_no % 2 == 1
+    threads = [threading.Thread(target=worker, args=(i,)) for i in range(1 if creator_works else 0, n_threads)]
     try:
         for t in threads:
             t.start()
+        if creator_works:
+            worker(0)
+            ctx.count("rounds_where_the_creating_thread_sends_requests")
         for t in threads:
             t.join(120)
     finally:
@@ -440,6 +449,7 @@ def stress_round(ctx, seed, interleavings, case_no):
         ctx.violation("request-raises-under-concurrency", {"errors": errors[:3]}, case)
         return
     ctx.count("yields_injected", injected[0])
+    ctx.count("connections_described_between_requests", len(described))
     order = judge_history(ctx, op.reqs, None, own_expected, case, adapter_ids=op.adapter_ids)
     if order is not None:
         tid_index = {}
@@ -515,10 +525,16 @@ def independent_roots(ctx):
 
 def offset_scenario(ctx, off, variant):
     """thread A is held at bytecode offset `off` of the id generator while B issues a request"""
-    op, conns = mk_conns()
+    made = {}
+
+    def make():
+        made['op'], conns = mk_conns()
+        made['a'] = conns[0]
+        made['b'] = conns[0] if variant in ("same-connection", "raw-threads", "creator-thread") else \
+            conns[2] if variant == "derived" else conns[3]
+    if variant != "creator-thread":
+        make()
     gen_code, _ = codes()
-    conn_a = conns[0]
-    conn_b = conns[0] if variant in ("same-connection", "raw-threads") else conns[2] if variant == "derived" else conns[3]
     mon = sys.monitoring
     b_done = threading.Event()
     go_b = threading.Event()
@@ -539,6 +555,9 @@ def offset_scenario(ctx, off, variant):
     def thread_a():
         a_tid[0] = threading.get_ident()
         try:
+            if variant == "creator-thread":
+                make()          # the thread that is held inside the generator is the one that made the connection
+            conn_a = made['a']
             conn_a.get("/a")
             go_b.set()          # offset never reached: let B go anyway
             conn_a.get("/a2", headers={'X-Request-ID': "own-a"})
@@ -550,6 +569,7 @@ def offset_scenario(ctx, off, variant):
     def thread_b():
         go_b.wait(5.0)
         try:
+            conn_b = made['b']
             conn_b.get("/b")
             b_done.set()
             conn_b.get("/b2")
@@ -603,6 +623,7 @@ def offset_scenario(ctx, off, variant):
     if state['b_in_gap']:
         ctx.count("scenarios_where_B_ran_inside_gap")
         ctx.nontrivial(f"offset:{off}:{variant}")
+    op = made['op']
     judge_history(ctx, op.reqs, None, ["own-a"], case, adapter_ids=op.adapter_ids)
 
 
@@ -620,7 +641,7 @@ def run_shard(ctx):
         long_run(ctx, 10400 if ctx.tier == "quick" else 101000)
     ctx.evaluated()
     first_requests_race(ctx, hash((ctx.seed, ctx.shard, 77)) & 0xffffffff, 1500 if ctx.tier == "quick" else 12000)
-    variants = ["same-connection", "derived", "derived-of-derived", "raw-threads"]
+    variants = ["same-connection", "derived", "derived-of-derived", "raw-threads", "creator-thread"]
     for sweep in range(int(ctx.params.get("sweeps", 1))):
         variant = variants[(ctx.shard * 2 + ctx.seed + sweep) % len(variants)]
         for off in offsets:
